@@ -928,6 +928,12 @@ impl Vault {
     ///
     /// Returns the number of grants that were revoked.
     pub fn cleanup_expired_grants(&self) -> usize {
+        // While sealed the obfuscator is zeroed: the secret nodes cannot be located, so
+        // popping tracker entries now would lose them and leave their edges in place.
+        if self.seal_guard.is_sealed() {
+            return 0;
+        }
+
         let expired = self.ttl_tracker.get_expired();
         let mut revoked = 0;
 
